@@ -24,7 +24,25 @@ claims = {
        "restricted to everything outside that class is still discharged. Not decided: the order of the trace entries (quantified loop contract not "
        "written), compile-phase errors.",
   note=TB + " Line/column arithmetic of jsight-schema-core is an assumed contract (abstract functions lineOf/colOf).",
-  ref="§6 C07"),
+  ref="§6 C07", category="other"),
+ "C06": dict(
+  text="Sufficient conditions for determinism, each decided mechanically on the SSA of /repo's working tree: (1) map-order: every range over a Go map in the module has an "
+       "order-insensitive body (only keyed map updates, constant stores, pure calls, sorted accumulation, no loop-computed value leaving the loop) or is an explicitly listed "
+       "assumption; (2) global-write: no store to a package-level variable outside init/sync.Once; (3) undeclared-external: every function under contract reaches only "
+       "externals that have a declared contract (time, rand, os, ... have none). This is an analysis of sufficient conditions, not a proof of equality of two runs.",
+  note=TB + " Map ranges that call into jsight-schema-core (AddRule/AddType/OpenAPI conversion) are assumed commutative (listed per run). Determinism inside the dependency is assumed.",
+  ref="§6 C06", category="other"),
+ "C09": dict(
+  text="Proof of the mechanisms the statement rests on, per function: processInclude changes only the active scanner and the include stack (frame: the pending directive and the "
+       "context cursor survive the switch); the included file starts in the root state with empty stacks; isScanningFinished resumes exactly the pushed scanner; the end of an "
+       "included file does not reject an open explicit context (only the end of the root does); include errors are located at the INCLUDE keyword. Not decided: equality of the two catalogs.",
+  note=TB, ref="§6 C09"),
+ "C10": dict(
+  text="Proof of three clauses of the statement: MACRO definitions contribute nothing - collectMacro's postcondition is that no MACRO remains in the root list (loop with in-place "
+       "deletion, quantified invariant) and addMacro's frame is the macro table only; an undefined macro is rejected at the PASTE; nested PASTE depth never exceeds the number of "
+       "macros (first-order measure against cycles; that a longer chain repeats a macro is the pigeonhole step on paper). The tree walk of the expansion is an assumed (trusted) "
+       "contract; equality of the expanded tree with the in-place text is not decided.",
+  note=TB + " processPasteDirectiveList and collectRulesFromDirectives: contracts assumed, bodies not verified.", ref="§6 C10"),
  "C11": dict(
   text="Proof of the context-resolution algorithm against the statement: processContext's postcondition is 'there is a context w on the Parent chain "
        "such that every context before w is implicit and does not admit the directive (abstract predicate skippedAll with its inductive definition as "
@@ -73,7 +91,7 @@ not_applicable = {
  "C18": "schedules and data races: the translation is sequential (sync.* erased), no permission logic",
 }
 # properties not yet claimed in this revision are listed as not_applicable with the reason "not yet under contract"
-pending = ["C03","C04","C05","C06","C08","C09","C10","C16","C17"]
+pending = ["C03","C04","C05","C08","C16","C17"]
 
 checks = []
 for pid in sorted(claims):
@@ -85,7 +103,7 @@ for pid in sorted(claims):
         "evidence_file": "/verif/evidence/%s.json" % pid,
         "replay_cmd_template": "cat {path}",
         "engine": "govc",
-        "level_claimed": {"category": "proof", "text": c["text"], "design_ref": c["ref"]},
+        "level_claimed": {"category": c.get("category", "proof"), "text": c["text"], "design_ref": c["ref"]},
         "level_note": c["note"],
         "technique": "contract-based deductive verification: weakest-precondition VCs generated from go/ssa of the real functions, contracts in guarded comment files, discharged by z3/cvc5",
     })
